@@ -57,6 +57,31 @@ class VCError(Exception):
     pass
 
 
+class SliceVal:
+    """value of slice(lo, hi)"""
+    def __init__(self, lo, hi):
+        self.lo, self.hi = lo, hi
+
+
+class _Val(ast.expr):
+    """an already evaluated value used where an expression is expected (slice bounds of a slice object)"""
+    _fields = ()
+
+    def __init__(self, v):
+        super().__init__()
+        self.v = v
+
+
+def _SliceNode(lo, hi):
+    return ast.Slice(lower=_Val(lo), upper=_Val(hi), step=None)
+
+
+class _Sub:
+    """a Subscript node with its slice replaced (same position: slice ordinals are keyed by position)"""
+    def __init__(self, e, sl):
+        self.value, self.slice, self.lineno, self.col_offset = e.value, sl, e.lineno, e.col_offset
+
+
 class VC:
     """Subclass per target function: override call(), on_yield(), invariant(), after()."""
 
@@ -133,6 +158,8 @@ class VC:
         return ids.setdefault((e.lineno, e.col_offset), len(ids) + 1)
 
     def ev(self, e, st):
+        if isinstance(e, _Val):
+            return e.v
         if isinstance(e, ast.Name):
             if e.id not in st.env:
                 raise VCError(f"unbound name {e.id}")
@@ -147,6 +174,8 @@ class VC:
             f = ast.unparse(e.func)
             args = [self.ev(a, st) for a in e.args]
             kw = {k.arg: self.ev(k.value, st) for k in e.keywords}
+            if f == "slice" and len(args) == 2 and not kw:
+                return SliceVal(args[0], args[1])         # slice(a, b) used as an index is the index a:b
             helper = self._helper(f)
             if helper is not None:
                 return self._inline(helper, args, kw, st)
@@ -190,6 +219,14 @@ class VC:
             return self.binop(type(e.op).__name__, l, r, st)
         if isinstance(e, ast.Subscript):
             base = self.ev(e.value, st)
+            sl = e.slice
+            if isinstance(sl, ast.Name) and isinstance(st.env.get(sl.id), SliceVal):
+                sv = st.env[sl.id]
+                sl = _SliceNode(sv.lo, sv.hi)
+            elif isinstance(sl, ast.Tuple) and any(isinstance(x, ast.Name) and isinstance(st.env.get(x.id), SliceVal) for x in sl.elts):
+                sl = ast.Tuple(elts=[_SliceNode(st.env[x.id].lo, st.env[x.id].hi) if isinstance(x, ast.Name) and isinstance(st.env.get(x.id), SliceVal) else x
+                                     for x in sl.elts], ctx=ast.Load())
+            e = _Sub(e, sl)
             if isinstance(e.slice, ast.Slice):
                 lo = self.ev(e.slice.lower, st) if e.slice.lower is not None else z3.IntVal(0)
                 if isinstance(base, Slice):
